@@ -331,13 +331,14 @@ def _load_yaml_or_json(data: bytes, content_type: Optional[str]) -> Union[dict[s
     if content_type == "application/json":
         try:
             return json.loads(data.decode())
-        except ValueError as err:
+        except (ValueError, RecursionError) as err:
             return GeneratorError(header=f"Invalid JSON from provided source: {err}")
     else:
         try:
             yaml = YAML(typ="safe")
             return yaml.load(data)
-        except YAMLError as err:
+        except (YAMLError, ValueError, KeyError, RecursionError) as err:
+            # scalar constructors (timestamps, !!int, !!float, !!bool) raise plain ValueError / KeyError for bad text
             return GeneratorError(header=f"Invalid YAML from provided source: {err}")
 
 
